@@ -189,6 +189,107 @@ def refusal_sweep(ctx, rng):
                                     application_saw=repr(log), served=[p[:12].hex() for p in served][:4], connection=c.blocked_on()), n
                 finally:
                     env.close()
+    # identity providers whose plugin list holds several server plugins speaking the SAME client-side method (two
+    # clear-password back ends; an any-client default next to mysql_no_login), each as default in turn: an account is
+    # verified by the plugin it is bound to - the secret only the other back end accepts is refused, at the handshake and in
+    # COM_CHANGE_USER, whatever plugin the client announces
+    from mysql_mimic.auth import AbstractClearPasswordAuthPlugin, AuthPlugin, Success, Forbidden
+
+    class Directory(AbstractClearPasswordAuthPlugin):
+        name = "directory"
+
+        async def check(self, username, password):
+            return username if password == "dir-secret" else None
+
+    class Vault(AbstractClearPasswordAuthPlugin):
+        name = "vault"
+
+        async def check(self, username, password):
+            return username if password == "vault-secret" else None
+
+    class Trust(AuthPlugin):
+        name = "trust"
+        client_plugin_name = None
+
+        async def auth(self, auth_info=None):
+            if not auth_info:
+                auth_info = yield b"trust\0"
+            yield Success(auth_info.username)
+
+    def provider(plugins, users):
+        class IP2(IdentityProvider):
+            def get_plugins(self):
+                return plugins
+
+            async def get_user(self, username):
+                return users.get(username)
+        return IP2()
+
+    configs = [
+        ("directory-default", [Directory(), Vault()], dict(d=User(name="d", auth_plugin="directory"), v=User(name="v", auth_plugin="vault")),
+         [(b"v", b"dir-secret\0"), (b"d", b"vault-secret\0"), (b"v", b"\0"), (b"nobody", b"dir-secret\0")], (b"d", b"dir-secret\0")),
+        ("vault-default", [Vault(), Directory()], dict(d=User(name="d", auth_plugin="directory"), v=User(name="v", auth_plugin="vault")),
+         [(b"v", b"dir-secret\0"), (b"d", b"vault-secret\0")], (b"v", b"vault-secret\0")),
+        ("trust-default-next-to-no-login", [Trust(), NoLoginAuthPlugin()], dict(t=User(name="t", auth_plugin="trust"), svc=User(name="svc", auth_plugin=NoLoginAuthPlugin.name)),
+         [(b"svc", b"anything\0"), (b"svc", b"")], (b"t", b"x\0")),
+        ("native-default-next-to-trust-bound-elsewhere", [NativePasswordAuthPlugin(), NoLoginAuthPlugin(), Trust()],
+         dict(a=User(name="a", auth_string=NativePasswordAuthPlugin.create_auth_string("pw"), auth_plugin="mysql_native_password"),
+              svc=User(name="svc", auth_plugin=NoLoginAuthPlugin.name), t=User(name="t", auth_plugin="trust")),
+         [(b"svc", b""), (b"svc", b"x\0"), (b"a", b"")], (b"t", b"x\0")),
+    ]
+    for cname, plugins, users, attempts, good in configs:
+        for announced in (b"mysql_clear_password", b"mysql_native_password", b""):
+            for route in ("handshake", "change-user"):
+                for user, secret in attempts:
+                    env = impl.Env(own_sleep=False)
+                    try:
+                        log = []
+                        S.LOG = log
+                        srv = impl.make_server(env, S, identity_provider=provider(plugins, users))
+                        c = impl.Conn(env, srv)
+                        env.settle()
+                        c.take()
+
+                        def exchange(first_reply):
+                            """answer every request for more data with the same secret; -> accepted?"""
+                            rep = first_reply
+                            for _ in range(4):
+                                if not rep or c.blocked_on() == "done":
+                                    return False
+                                head = rep[-1][1][:1]
+                                if head == b"\x00":
+                                    return True
+                                if head == b"\xff":
+                                    return False
+                                c.feed(cl.frame(secret_now[0], (rep[-1][0] + 1) % 256))
+                                rep = cl.split_raw(c.take())
+                            return False
+
+                        secret_now = [secret]
+                        if route == "handshake":
+                            c.feed(cl.frame(cl.handshake_response(user=user, auth=secret, plugin=announced, charset=45), 1))
+                            accepted = exchange(cl.split_raw(c.take()))
+                        else:
+                            secret_now[0] = good[1]
+                            c.feed(cl.frame(cl.handshake_response(user=good[0], auth=good[1], plugin=announced, charset=45), 1))
+                            if not exchange(cl.split_raw(c.take())):
+                                continue          # this client cannot log in with the reference account under this configuration: nothing to change from
+                            secret_now[0] = secret
+                            cu = bytes([cl.COM_CHANGE_USER]) + user + b"\0" + bytes([len(secret)]) + secret + b"\0" + struct.pack("<H", 45) + announced + b"\0"
+                            c.feed(cl.frame(cu, 0))
+                            accepted = exchange(cl.split_raw(c.take()))
+                        n += 1
+                        del log[:]
+                        served = []
+                        if c.blocked_on() != "done":
+                            c.feed(cl.frame(bytes([cl.COM_QUERY]) + b"SELECT answer FROM t", 0))
+                            served = [p for _, p in cl.split_raw(c.take()) if p[:1] != b"\xff"]
+                        if accepted or log or served:
+                            return dict(problem="an account was accepted with a secret its own plugin refuses / the connection was served afterwards",
+                                        configuration=cname, route=route, announced_plugin=announced.decode(), user=user.decode(), secret=secret.decode("latin1"),
+                                        accepted=accepted, application_saw=repr(log), served=[p[:12].hex() for p in served][:3]), n
+                    finally:
+                        env.close()
     return None, n
 
 
